@@ -145,7 +145,7 @@ static int g_cut_size[VP_N + 1];       /* builder reached the size limit after t
 /* per output; slot = input position at which it was opened (concrete there) */
 static int f_opened[VP_N + 1];
 static uint64_t f_number[VP_N + 1];
-static uint64_t fsz[VP_N + 1];         /* final size the builder will report (symbolic constant) */
+static uint64_t fsz[VP_N + 1];         /* size the builder reports once finished / abandoned (symbolic constant) */
 static int f_installed[VP_N + 1];
 /* the output being generated: one at a time, scalars only */
 static int g_cur = -1;                 /* its slot */
@@ -663,13 +663,12 @@ ldb_tablegen_size(const ldb_tablegen_t *t) {
   uint64_t r = g_size;
   int k;
   VP_ASSERT(t == &tb && tb.live, "size of the live builder");
-  if (c_fin == 1) {
+  if (c_fin != 0) {
     for (k = 0; k < VP_N; k++)
       if (k == g_cur)
         r = fsz[k];
-  }
-  if (c_fin != 0)
     g_written += (int64_t)r;   /* asked once per output, after finish() / abandon() */
+  }
   return r;
 }
 
@@ -970,10 +969,11 @@ harness(void) {
   VP_ASSUME(imm_at >= 0 && imm_at < VP_N);
 #endif
 
-  for (k = 0; k < VP_N; k++) {
-    fsz[k] = vp_u64();
-    VP_ASSUME(fsz[k] < (UINT64_C(1) << 40));
-  }
+  /* final sizes: 1..256 in a bit field of its own per output, so that the
+     sums the statistics form have no carries (equalities between 64-bit
+     adder chains are what SAT solvers are worst at) */
+  for (k = 0; k < VP_N; k++)
+    fsz[k] = ((uint64_t)vp_u8() + 1) << (9 * k);
 
   state = ldb_cstate_create(&comp);
   vp_mutex_held = 1;     /* ldb_background_compaction holds the mutex */
